@@ -8,7 +8,9 @@ Monitors (post-conditions on the real functions, wherever the call comes from):
   AccSignal.pga / .pgv / .pgd, eqsig.im.calc_peak / calculate_peak   result == max|series| exactly.
 Driver-side (offline, over the recorded results of related executions): sign reversal, power-of-two scaling (exact),
 linearity (alpha*x+beta*y), |alpha| scaling of the peaks, closed forms for constant / linearly varying acceleration,
-object-vs-array agreement, no exception on in-domain input.
+object-vs-array agreement, no exception on in-domain input; "twin objects" (two AccSignal objects fed from the same
+caller array, one of them corrected in place): the untouched one keeps its values bit-for-bit and both stay consistent
+under the object monitors.
 """
 import warnings
 import weakref
@@ -30,7 +32,10 @@ RULE = ('array cases = (record, container, dt, trap in {True,False}) calls of ca
         'alpha x+beta y. object cases = AccSignal(record, dt) followed by a random history of mutators '
         '(reset_values, add_*, remove_*, running/rolling average, butter_pass, baseline corrections, correct_me, '
         'clear_cache, explicit generate(trap=..)) interleaved with reads of velocity/displacement/pga/pgv/pgd in '
-        'random order. distinct = digest of (record bytes+dtype, container, dt, options/history); non-trivial = '
+        'random order. twin cases = two AccSignal objects built from the SAME float64 caller array (or from each '
+        'other\'s values, at construction or via reset_values; n >= 64, non-zero record); all five quantities of both '
+        'are read, 1-2 in-place style corrections are applied to ONE of them, then both are read again and the '
+        'untouched object\'s values are compared bit-for-bit with their earlier state. distinct = digest of (record bytes+dtype, container, dt, options/history); non-trivial = '
         'record not identically zero.')
 ASSUMPTIONS = ['finite real 1-D record of length >= 2, dt > 0, trap a Python bool',
                'integer records are judged when the arithmetic of the integer dtype cannot overflow on adjacent sums '
@@ -51,7 +56,8 @@ MIN_EVALS = {
               'obj.length': 18000, 'obj.finite': 18000, 'obj.start==0': 18000, 'obj.velocity.increments': 9000,
               'obj.displacement.increments': 9000, 'obj.pga==max|series|': 2900, 'obj.pgv==max|series|': 2400,
               'obj.pgd==max|series|': 2400, 'obj.peaks==max|series| after explicit trap switch': 800,
-              'obj==array': 3000, 'obj.no-exception': 14000},
+              'obj==array': 3000, 'obj.no-exception': 14000,
+              'obj.twin.untouched-object-still-consistent': 320},
 }
 MIN_EVALS['thorough'] = {k: v * 20 for k, v in MIN_EVALS['quick'].items()}
 
@@ -749,7 +755,12 @@ def _apply_mutator(eqsig, a, op):
     elif m == 'set_zero_residual_displacement':
         a.set_zero_residual_displacement()
     elif m == 'set_zero_residual_displacement_and_velocity':
-        a.set_zero_residual_displacement_and_velocity()
+        tz = op[1] if len(op) > 1 else None
+        if tz is None:
+            a.set_zero_residual_displacement_and_velocity()
+        else:
+            a.set_zero_residual_displacement_and_velocity(
+                timezone=((tz[0] + 0.5) * float(a.dt), None if tz[1] is None else (tz[1] + 0.5) * float(a.dt)))
     elif m == 'remove_rolling_average':
         a.remove_rolling_average(mtype=op[1], freq_window=1.0 / ((int(op[2]) + 0.5) * float(a.dt)))
     elif m == 'correct_me':
@@ -794,6 +805,120 @@ def run_object_scenario(eqsig, ctx, scen):
                         CUR['after_switch'] = (op[0] == 'generate')
                     except Exception as e:      # a mutator that raised may have left the caches as they were
                         ctx.observe('mutator-exception:%s:%s' % (op[0], type(e).__name__))
+    finally:
+        CUR['scenario'] = None
+        CUR['after_switch'] = False
+
+
+TWIN_LINKS = ['same-caller-array', 'from-raw-values', 'reset-caller-array', 'reset-raw-values']
+TWIN_MUTATORS = ['rebase_displacement', 'rebase_displacement', 'remove_rolling_average', 'set_zero_residual_velocity',
+                 'set_zero_residual_velocity', 'set_zero_residual_displacement',
+                 'set_zero_residual_displacement_and_velocity', 'set_zero_residual_displacement_and_velocity',
+                 'running_average', 'butter_pass', 'add_constant']
+
+
+def make_twin_scenario(rng, nmax=1500):
+    """Two AccSignal objects built from the SAME caller array (or from each other's values); only one is corrected."""
+    n = max(64, pick_n(rng, nmax))
+    while True:
+        x, cls, _ = pick_record(rng, n)
+        if np.any(x != 0) and np.all(np.isfinite(x)):
+            break
+    y, _, _ = pick_record(rng, max(64, pick_n(rng, nmax)))
+    dt = pick_dt(rng)
+    ops = []
+    for _ in range(int(rng.integers(1, 3))):
+        m = TWIN_MUTATORS[int(rng.integers(len(TWIN_MUTATORS)))]
+        if m == 'remove_rolling_average':
+            op = [m, 'acceleration' if rng.random() < 0.6 else 'velocity', int(rng.integers(2, 10))]
+        elif m in ('set_zero_residual_velocity', 'set_zero_residual_displacement_and_velocity'):
+            tz = None
+            if rng.random() < 0.4:
+                i0 = int(rng.integers(0, n - 8))
+                tz = [i0, None if rng.random() < 0.5 else int(rng.integers(i0 + 4, n))]
+            op = [m, tz]
+        elif m == 'running_average':
+            op = [m, int(rng.integers(2, 10))]
+        elif m == 'butter_pass':
+            op = [m, float(rng.uniform(0.01, 0.2)), float(rng.uniform(0.3, 0.9)), int(rng.integers(1, 5)), None]
+        elif m == 'add_constant':
+            op = [m, [1, -2, 0.5, float(rng.normal())][int(rng.integers(4))]]
+        else:
+            op = [m]
+        ops.append(op)
+    return {'kind': 'twin', 'acc': np.asarray(x, dtype=float), 'container': 'array', 'ckind': 'f64', 'cls': cls,
+            'dt': dt, 'dt_kind': _dt_kind(dt), 'link': TWIN_LINKS[int(rng.integers(len(TWIN_LINKS)))],
+            'other': np.asarray(y, dtype=float), 'ops': ops, 'reads0': _reads(rng, full=True),
+            'reads1': _reads(rng, full=True)}
+
+
+def _read_all(ctx, a, names, scen, who):
+    if _domain(a.values, a.dt, True) is not None:
+        ctx.observe('out-of-domain(obj):twin-%s-not-read' % who)
+        return
+    for nm in names:
+        try:
+            getattr(a, nm)
+            ctx.ok('obj.no-exception')
+        except Exception as e:
+            ctx.exception('obj.no-exception', dict(scen, failed_at='twin read %s.%s' % (who, nm)), e)
+
+
+def run_twin_scenario(eqsig, ctx, scen):
+    """raw and cor are separate objects; correcting cor must leave raw's record, series and peaks alone. The object
+    monitors judge every read (series vs the object's CURRENT values, peaks vs series); the driver adds the bit-for-bit
+    comparison of raw.values with its state before cor was touched."""
+    CUR['scenario'] = scen
+    CUR['after_switch'] = False
+    try:
+        A = np.array(scen['acc'], dtype=float)      # the caller's ndarray, handed to both objects
+        dt = _dt_from(scen)
+        link = scen['link']
+        with warnings.catch_warnings():
+            warnings.simplefilter('ignore')
+            try:
+                raw = eqsig.AccSignal(A, dt)
+                if link == 'same-caller-array':
+                    cor = eqsig.AccSignal(A, dt)
+                elif link == 'from-raw-values':
+                    cor = eqsig.AccSignal(raw.values, dt)
+                elif link == 'reset-caller-array':
+                    cor = eqsig.AccSignal(np.array(scen['other'], dtype=float), dt)
+                    cor.reset_values(A)
+                else:
+                    cor = eqsig.AccSignal(np.array(scen['other'], dtype=float), dt)
+                    cor.reset_values(raw.values)
+            except Exception as e:
+                ctx.exception('obj.no-exception', dict(scen, failed_at='twin construction'), e)
+                return
+            _read_all(ctx, raw, scen['reads0'], scen, 'raw')        # fills the lazy caches of both
+            _read_all(ctx, cor, scen['reads1'], scen, 'cor')
+            before = np.array(raw.values, copy=True)
+            for op in scen['ops']:
+                try:
+                    _apply_mutator(eqsig, cor, op)
+                except Exception as e:
+                    ctx.observe('mutator-exception:%s:%s' % (op[0], type(e).__name__))
+            now = np.asarray(raw.values)
+            same = (now.dtype == before.dtype and now.shape == before.shape
+                    and now.tobytes() == before.tobytes())
+
+            def _msg():
+                if now.shape != before.shape:
+                    return 'shape %s -> %s' % (before.shape, now.shape)
+                bad = np.flatnonzero(now != before)
+                return '%d of %d samples differ, first at i=%s: %r -> %r' % (
+                    len(bad), len(now), bad[0] if len(bad) else None,
+                    before[bad[0]] if len(bad) else None, now[bad[0]] if len(bad) else None)
+            ctx.check(same, 'obj.twin.untouched-object-still-consistent',
+                      lambda: dict(scen, failed_at='raw.values after %s on the twin' % [o[0] for o in scen['ops']]),
+                      'link=%s: %s applied to the OTHER object changed this object\'s values (%s); its cached '
+                      'velocity/displacement/peaks no longer belong to the record it holds'
+                      % (link, [o[0] for o in scen['ops']], _msg() if not same else ''))
+            _read_all(ctx, raw, scen['reads1'], scen, 'raw')
+            _read_all(ctx, cor, scen['reads0'], scen, 'cor')
+            _agree(eqsig, ctx, raw, scen, -1)
+            _agree(eqsig, ctx, cor, scen, -2)
     finally:
         CUR['scenario'] = None
         CUR['after_switch'] = False
@@ -875,6 +1000,10 @@ def _fixed_cases():
                 'dt': 1.0, 'dt_kind': 'float',
                 'ops': [['read', ['pgv', 'pgd']], ['generate', False], ['read', ['velocity', 'pgv', 'pgd', 'pga']],
                         ['agree'], ['generate', True], ['read', ['pgd', 'pgv', 'displacement']], ['agree']]})
+    t = np.arange(80, dtype=float)
+    out.append({'kind': 'twin', 'acc': np.sin(t / 5.0) + 0.25, 'container': 'array', 'ckind': 'fixed', 'cls': 'fixed',
+                'dt': 0.01, 'dt_kind': 'float', 'link': 'same-caller-array', 'other': np.cos(t / 3.0),
+                'ops': [['rebase_displacement']], 'reads0': list(READS), 'reads1': list(READS[::-1])})
     return out
 
 
@@ -886,6 +1015,11 @@ def _register(ctx, case):
         ctx.case(dig, nontrivial=nontriv, cls='array-%s-%s' % (case['ckind'], case['cls']),
                  sample={'fn': case['fn'], 'n': len(base), 'class': case['cls'], 'container': case['ckind'],
                          'dt': case['dt'], 'head': base[:8]})
+    elif case['kind'] == 'twin':
+        dig = core.digest(base, case['link'], case['dt'], case['dt_kind'], case['ops'], case['other'])
+        ctx.case(dig, nontrivial=nontriv, cls='twin-%s' % case['link'],
+                 sample={'n': len(base), 'class': case['cls'], 'link': case['link'], 'dt': case['dt'],
+                         'ops_on_twin': [o[0] for o in case['ops']]})
     else:
         dig = core.digest(base, case['container'], case['dt'], case['dt_kind'], case['ops'])
         ctx.case(dig, nontrivial=nontriv, cls='object-%s-%s' % (case['ckind'], case['cls']),
@@ -904,7 +1038,8 @@ def run_shard(ctx):
         if i % ctx.nshards != ctx.shard:
             continue
         _register(ctx, case)
-        (run_array_case if case['kind'] == 'arraycase' else run_object_scenario)(eqsig, ctx, case)
+        {'arraycase': run_array_case, 'object': run_object_scenario, 'twin': run_twin_scenario}[case['kind']](
+            eqsig, ctx, case)
     n_arr = (4800 if quick else 110000) // ctx.nshards + 1
     n_obj = (1600 if quick else 36000) // ctx.nshards + 1
     for c in range(n_arr):
@@ -921,6 +1056,14 @@ def run_shard(ctx):
         if ctx.out_of_time():
             ctx.observe('stopped-by-deadline')
             break
+    n_twin = (640 if quick else 14000) // ctx.nshards + 1
+    for c in range(n_twin):
+        scen = make_twin_scenario(rng)
+        _register(ctx, scen)
+        run_twin_scenario(eqsig, ctx, scen)
+        if ctx.out_of_time():
+            ctx.observe('stopped-by-deadline')
+            break
     ctx.note('monitored_calls', dict(attach.CALLS))
 
 
@@ -934,6 +1077,8 @@ def replay(w):
         run_array_case(eqsig, ctx, w)
     elif kind == 'object':
         run_object_scenario(eqsig, ctx, w)
+    elif kind == 'twin':
+        run_twin_scenario(eqsig, ctx, w)
     elif kind == 'peak':
         m = materialise(w['motion'], w.get('container', 'array'))
         with warnings.catch_warnings():
